@@ -97,6 +97,8 @@ func c08(r *core.Run) {
 
 	root := p.FuncsOfPkg("")
 	c08ListenersWired(r, "O7", root)
+	r.Rule("O9", "listeners are the ones registered now (shared with C06.R6): the handler lookup every event-sending resource comes from writes no shared state - in particular it does not memoise matches (Match.Listeners is a snapshot of the node's listener slice; a cached match never sees a listener added later)", 1)
+	c06PureLookup(r, "O9")
 	r.Rule("O8", "an event that was applied is published: each event funnel (the functions handing their subject parameter to Conn.Publish) publishes, or hands the message to another funnel, on every path to its return - the only exit without a publish is the error edge of the payload's json.Marshal; a funnel that returns early on a state or configuration test makes apply and listeners run around a publish that never happens", 1)
 	c08FunnelAlwaysPublishes(r, "O8")
 	mp := mayPublish(p)
